@@ -149,8 +149,10 @@ where
             let a = range.start;
             let b = range.end;
 
+            // The bounds themselves are valid positions; `Range::contains` excludes the upper
+            // bound, which would never be left again by reflecting.
             let mut x_temp = *x;
-            while !range.contains(&x_temp) {
+            while x_temp < a || x_temp > b {
                 x_temp = match x_temp {
                     v if v < a => a + (a - v),
                     v if v > b => b - (v - b),
@@ -208,8 +210,10 @@ where
 
             let dist = Normal::new(0., (b - a) / 3.).unwrap();
 
+            // The bounds themselves are valid positions; `Range::contains` excludes the upper
+            // bound, for which no branch below would resample.
             let mut new_x = *x;
-            while !range.contains(&new_x) {
+            while new_x < a || new_x > b {
                 new_x = match new_x {
                     v if v < a => a + dist.sample(rng).abs(),
                     v if v > b => b - dist.sample(rng).abs(),
